@@ -172,6 +172,7 @@ class Ctx:
         for leg, v in d["legs"].items():
             t = self.legs.setdefault(leg, {"cases": 0, "nontrivial": 0})
             t["cases"] += v["cases"]
+            t["nontrivial"] += v.get("nontrivial", 0)  # per-leg counts are summed over workers (distinctness is global only)
         new = set(d["nontrivial"]) - self.nontrivial
         self.nontrivial |= new
         for k, v in d["hist"].items():
